@@ -284,6 +284,14 @@ func (c *c10) runReader(r *core.R, rng *rand.Rand, total, savedMask int, allDama
 			}
 		}
 	}
+	// every saved file lost at once (the parity volumes alone carry the set)
+	{
+		d := p1Damage{bad: map[int]string{}, lostVols: map[int]bool{}}
+		for k, i := range savedIdx {
+			d.bad[i] = []string{"delete", "flip", "truncate"}[k%3]
+		}
+		p1Judge(r, e, vols, d, rng, savedIdx, false)
+	}
 	_ = before
 	r.Key("reader|n=%d|mask=%b|v=%d", total, savedMask, nv)
 	r.Count("reference_written_sets", 1)
